@@ -423,6 +423,19 @@ struct FnDriver : DriverBase<FnDriver<Cap>> {
                     FS src;
                     with_target<FS>(skind, id, [&](auto&& t) { src = static_cast<decltype(t)&&>(t); });
                     made = new (mem) F(static_cast<FS const&>(src));
+                    // the source of a copy must still call an equivalent target afterwards
+                    {
+                        int r2 = 5;
+                        Tracked c2(3);
+                        TrackedMoveOnly mv2(42);
+                        int const srcRet = static_cast<FS const&>(src)(1, r2, c2, static_cast<TrackedMoveOnly&&>(mv2));
+                        TargetModel const sm = model_for(skind, id);
+                        int const wantCount  = sm.kind == 0 ? g_freeCount[sm.id - 900] : 1;
+                        if (srcRet != sm.id * 1000 + wantCount * 10 + 4) {
+                            LibPause pause;
+                            ctx.violation("C20", "diff:inplace_function:source-after-converting-copy", "the source of a converting copy no longer calls its target correctly (returned " + std::to_string(srcRet) + ")");
+                        }
+                    }
                     break;
                 }
                 case 6: { // converting move from a smaller capacity
